@@ -686,7 +686,8 @@ def ward_quick(G, feature, verbose=False):
             k = q + n
             i = K.edges[m, 0]
             j = K.edges[m, 1]
-            height[k] = cost
+            # q - s ** 2 / n rounds: never let a merge sit below its children
+            height[k] = max(cost, height[i], height[j])
             if verbose:
                 print(q, i, j, m, cost)
 
@@ -948,7 +949,8 @@ def ward(G, feature, verbose=False):
         k = q + n
         i = K.edges[m, 0]
         j = K.edges[m, 1]
-        height[k] = cost
+        # q - s ** 2 / n rounds: never let a merge sit below its children
+        height[k] = max(cost, height[i], height[j])
         if verbose:
             print(q, i, j, m, cost)
 
